@@ -126,7 +126,7 @@ func (s *Service) handleSubmitSyncCommitteeContributionsError(ctx context.Contex
 				s.log.Trace().Str("beacon_node_address", address).Int("index", resp.Failures[i].Index).Str("msg", resp.Failures[i].Message).Msg("Real lighthouse error")
 			}
 		}
-		if len(resp.Failures) == allowedFailures {
+		if len(resp.Failures) > 0 && len(resp.Failures) == allowedFailures {
 			s.log.Trace().Str("beacon_node_address", address).Msg("Errors from node are allowable; no error")
 			return nil
 		}
